@@ -58,6 +58,10 @@ def step (st : St) (line : String) : St × String :=
             match two rest with
             | some (v1, v2) => (st, if de then boolRes (DeepEq.deepEqualTop F P i false v1 v2) else "nomethod")
             | none => (st, "bad-op")
+          else if op == "ES" then
+            match two rest with
+            | some (v1, v2) => (st, if de then boolRes (DeepEq.deepEqualSh F P (.struct i) v1 v2) else "nomethod")
+            | none => (st, "bad-op")
           else if op == "EI" then
             match parseVal rest with
             | some (v, []) => (st, if de then boolRes (DeepEq.deepEqualTop F P i true v v) else "nomethod")
